@@ -65,6 +65,46 @@ pub fn run(ctx: &mut Ctx) {
     ctx.rule("a case is one (injected clock, picture, text | now-constructor) triple at a distinct sweep index; non-trivial = the composed (year, month, day) is not a real date and must be rejected, or the clock is outside years 1..9999");
     ctx.assume("the clock is the only environment input and is owned through the verif-hooks feature: a thread-local override consulted at each of the six places the crate reads chrono::Local::now(); chrono's NaiveDateTime constructor is trusted as hook input");
 
+    // the "current local date": without an override every one of the six clock reads must report
+    // the LOCAL wall clock.  The process time zone is set to UTC+9 first, so that a read of the
+    // UTC clock (or of any other zone) differs by hours and cannot hide behind a UTC sandbox.
+    std::env::set_var("TZ", "JST-9");
+    set_now(None);
+    {
+        use chrono::{Datelike, Timelike};
+        let us_of = |t: &chrono::NaiveDateTime| -> i64 {
+            let n = world().cal.day_number(t.year(), t.month(), t.day()) as i64;
+            n * US_DAY + t.num_seconds_from_midnight() as i64 * US_SEC + (t.nanosecond() / 1000) as i64
+        };
+        let utc_now = chrono::Utc::now().naive_utc();
+        let before = chrono::Local::now().naive_local();
+        let zone_ok = (us_of(&before) - us_of(&utc_now) - 9 * US_HOUR).abs() < 60 * US_SEC;
+        let got = guard(|| (Date::now().map(|d| d.days() as i64), Timestamp::now().map(|t| t.usecs()), OracleDate::now().map(|t| t.usecs()),
+            Timestamp::try_from(Time::ZERO).map(|t| t.usecs()), OracleDate::try_from(Time::ZERO).map(|t| t.usecs()), TV::parse(Ty::Timestamp, "", "")));
+        let after = chrono::Local::now().naive_local();
+        let (b, a) = (us_of(&before), us_of(&after));
+        let day = |u: i64| u.div_euclid(US_DAY);
+        let month_start = |t: &chrono::NaiveDateTime| world().cal.day_number(t.year(), t.month(), 1) as i64 * US_DAY;
+        let ok = match &got {
+            Ok((Ok(d), Ok(ts), Ok(od), Ok(t1), Ok(t2), Ok(p))) => {
+                (day(b)..=day(a)).contains(d) && (b..=a).contains(ts) && (b / US_SEC * US_SEC..=a).contains(od) && (day(b)..=day(a)).contains(&day(*t1)) && (day(b)..=day(a)).contains(&day(*t2))
+                    && (*p == month_start(&before) || *p == month_start(&after))
+            }
+            _ => false,
+        };
+        let mut acc = explorer::Acc::new("real_local_clock_canary");
+        acc.states = 1;
+        acc.t(6);
+        acc.traces += 1;
+        acc.cls("local_clock_reported");
+        if !zone_ok {
+            ctx.machinery_failure(format!("time-zone canary: chrono::Local did not honour TZ=JST-9 (local {before}, utc {utc_now})"));
+        } else if !ok {
+            acc.fail("C18:now-constructors:real-clock-is-not-the-local-clock", 0, || (format!("TZ=JST-9, no clock override: Date::now / Timestamp::now / OracleDate::now / Timestamp::try_from(Time) / OracleDate::try_from(Time) / parse default; local clock between {before} and {after}"), format!("values inside [{b}, {a}] µs (local wall clock)"), format!("{got:?}"), String::new()));
+        }
+        ctx.absorb_external("real_local_clock_canary", "the six clock reads against chrono::Local under TZ=JST-9 (no override)", acc);
+    }
+
     // ownership canary: without an override the crate reads the real clock
     set_now(None);
     let before = clock_reads();
@@ -130,6 +170,10 @@ pub fn run(ctx: &mut Ctx) {
                         _ => (format!("{dg:0w$}-02-28", w = n as usize), 0),
                     };
                     one(acc, idx, "short-year-completion", p, &text, compose(cal, p.ty, y, 2, 28, tod), &c);
+                    if dg == 21 || dg == 1 {
+                        // a minus sign makes the year negative, whatever the clock completes it with
+                        one(acc, idx, "negative-short-year", p, &format!("-{}", text), None, &c);
+                    }
                     if p.ty == Ty::Date && n == 2 && dg == 21 {
                         // a leading '+' is a permitted spelling of the same two digits
                         one(acc, idx, "short-year-completion-with-plus-sign", p, "+21-02-28", compose(cal, p.ty, y, 2, 28, 0), &c);
@@ -166,6 +210,27 @@ pub fn run(ctx: &mut Ctx) {
         set_now(None);
     });
     ctx.require(&r, &["defaulted_value", "composed_date_does_not_exist", "now_reports_clock"]);
+
+    // clocks with a sub-microsecond part: now() truncates (never rounds up, never fails)
+    let nanos: [u32; 9] = [0, 1, 499, 500, 999, 1_000, 999_999_499, 999_999_500, 999_999_999];
+    let r = ctx.sweep_each("sub_microsecond_clocks", "clocks at {0001-01-01, 1969-12-31, 1970-01-01, 2024-02-29, 9999-12-31} x {00:00:00, 12:34:56, 23:59:59} x nanoseconds {0,1,499,500,999,1000,999999499,999999500,999999999}", 5 * 3 * 9, 4, |idx, acc| {
+        let n = [cal.min_day, -1, 0, cal.day_number(2024, 2, 29), cal.max_day][(idx / 27) as usize];
+        let secs = [0u32, 12 * 3600 + 34 * 60 + 56, 86_399][((idx / 9) % 3) as usize];
+        let ns = nanos[(idx % 9) as usize];
+        let c = cal.at(n);
+        let clk = chrono::NaiveDateTime::new(chrono::NaiveDate::from_ymd_opt(c.y, c.m, c.d).unwrap(), chrono::NaiveTime::from_num_seconds_from_midnight_opt(secs, ns).unwrap());
+        set_now(Some(clk));
+        acc.states += 1;
+        acc.t(3);
+        acc.traces += 1;
+        let want_ts = n as i64 * US_DAY + secs as i64 * US_SEC + (ns / 1000) as i64;
+        let got = guard(|| (Date::now().map(|d| d.days() as i64).ok(), Timestamp::now().map(|t| t.usecs()).ok(), OracleDate::now().map(|t| t.usecs()).ok()));
+        if got != Ok((Some(n as i64), Some(want_ts), Some(n as i64 * US_DAY + secs as i64 * US_SEC))) {
+            acc.fail("C18:now-constructors:sub-microsecond-clock-not-truncated", idx, || (format!("clock = {clk}: Date::now / Timestamp::now / OracleDate::now"), format!("day {n}, {want_ts} µs, whole second"), format!("{got:?}"), String::new()));
+        } else { acc.cls("now_reports_clock"); if ns % 1000 != 0 { acc.nontrivial += 1; } }
+        set_now(None);
+    });
+    ctx.require(&r, &["now_reports_clock"]);
 
     // clocks outside the supported range: errors, never panics
     let outs: Vec<(i32, u32, u32)> = vec![(0, 1, 1), (0, 12, 31), (10_000, 1, 1), (10_000, 6, 15), (-1, 3, 3), (20_000, 2, 29), (-4, 2, 29)];
